@@ -39,6 +39,7 @@ type runRec struct {
 	Dir       string `json:"key_directory_state"`
 	Policy    string `json:"namespace_policy"`
 	HardKey   bool   `json:"hard_key"`
+	IfVer     int    `json:"client_interface_version"`
 	KeyType   string `json:"user_key_type"`
 	LogName   string `json:"login_name"`
 	NilParam  bool   `json:"nil_param,omitempty"`
@@ -339,6 +340,9 @@ func sequence(r *ev.Run, c *ev.Case, seqNo int, mon *chalMon) {
 		}
 		rec.Policy, rec.HardKey = ps2.Policy, ps2.HardKey
 		param := gsrig.Param(ps2)
+		// the interface version is a client claim like any other: whatever it says, a hardware-key request is refused
+		param.Attrs.IfVer = []int{7, 7, 6, 5, 0, -1, 1 << 30}[rng.Intn(7)]
+		rec.IfVer = param.Attrs.IfVer
 		if rng.Intn(40) == 0 {
 			param = nil
 			rec.NilParam = true
@@ -879,7 +883,19 @@ func oneList(r *ev.Run, c *ev.Case, n, pat, realPos int, realOK bool, variant in
 	}
 	signer := &gsrig.Signer{Agent: ag}
 	rec := map[string]any{"handlers": n, "accept_pattern": fmt.Sprintf("%0*b", n, pat), "real_handler_position": realPos, "real_handler_accepts": realOK, "first_accepting": firstAccept}
-	err, escaped := gsrig.Run(gsrig.Param(gsrig.ParamSpec{LogName: "alice", ReqUser: "u", ReqHost: "h", ClientIP: "1.2.3.4", TransID: "0123456789", Policy: "NONS"}), hs, signer)
+	param := gsrig.Param(gsrig.ParamSpec{LogName: "alice", ReqUser: "u", ReqHost: "h", ClientIP: "1.2.3.4", TransID: "0123456789", Policy: "NONS"})
+	// the keyword the client's command line named: the name of some handler of the list — often a LATER one than the
+	// first that accepts — or of none. The order is the configured order all the same.
+	if len(hs) > 0 {
+		switch variant % 3 {
+		case 0:
+			param.HandlerName = hs[len(hs)-1].Name()
+		case 1:
+			param.HandlerName = hs[variant%len(hs)].Name()
+		}
+		rec["handler_keyword"] = param.HandlerName
+	}
+	err, escaped := gsrig.Run(param, hs, signer)
 	if escaped != "" {
 		r.Violation(c, gsrig.EscapeSig(escaped)+":handler-list", escaped, rec)
 		return
